@@ -81,8 +81,8 @@ Definition spf_none_field (heloname spfdomain : bytes) : bytes :=
   ++ [32;100;111;101;115;32;110;111;116;32;100;101;115;105;103;110;97;116;101;32;112;101;114;109;105;116;116;101;100;32;115;101;110;100;101;114;32;104;111;115;116;115;41;10]%N.
 
 (** what smtp_data() puts in front of the data in the harness configuration (SPF result "none"; no Received-SPF
-    for clients that may relay by IP) *)
+    for clients that may relay by IP or are authenticated) *)
 Definition trace_header (t : tin) (mailfrom : bytes) (relay_by_ip : bool) : bytes :=
-  (if relay_by_ip then []
+  (if relay_by_ip || t_authed t then []
    else spf_none_field (t_heloname t) (match mailfrom with [] => t_helostr t | m => m end))
   ++ received_field t.
